@@ -33,7 +33,7 @@ def gen_model_(rng):
     shared = {"k": rng.choice(["k0", 0.5, 2.0])} if rng.chance(1, 3) else None
     for j in range(rng.randint(1, 4)):
         c = rng.below(10)
-        k = rng.choice(["k%d" % j, rng.choice([0.5, 2.0])])         # named or numeric parameter
+        k = rng.choice(["k%d" % j, rng.choice([0.5, 2.0, 0.0])])         # named or numeric parameter
         if c < 6:
             reac = [rng.choice(SP) for _ in range(rng.randint(0, 4))]
             if rng.chance(1, 5):
@@ -52,7 +52,7 @@ def gen_model_(rng):
                        {"rate": rng.choice(GENERAL) % j}))
     params = {}
     for j in range(4):
-        params["k%d" % j] = rng.choice([0.5, 1.0, 2.0]); params["K%d" % j] = rng.choice([2.0, 3.0]); params["n%d" % j] = rng.choice([1.0, 2.0])
+        params["k%d" % j] = rng.choice([0.5, 1.0, 2.0, 0.0]); params["K%d" % j] = rng.choice([2.0, 3.0]); params["n%d" % j] = rng.choice([1.0, 2.0])      # (0: a switched-off reaction)
     return dict(species=list(SP), reactions=rx, parameters=params, initial_condition_dict={"A": 4, "B": 3, "C": 5})
 
 
@@ -69,6 +69,11 @@ def one(ctx, rng, tmpdir):
     doc, sm = sbml_eval.read_doc(path)
     defined = set(s.getId() for s in sm.getListOfSpecies()) | set(p.getId() for p in sm.getListOfParameters())
     pvals = {p.getId(): p.getValue() for p in sm.getListOfParameters()}
+    novalue = sorted(p.getId() for p in sm.getListOfParameters() if not p.isSetValue() or p.getValue() != p.getValue())
+    if novalue:
+        ctx.violation("kinetic-law/parameter-without-value", "the document defines the parameters %s without a value (the model's values: %s): a kinetic law that mentions them has no value"
+                      % (novalue, {q: float(dict(zip(M.get_param_list(), M.get_parameter_values())).get(q, float("nan"))) for q in novalue}), dict(rep, parameters=novalue))
+        return
     I = ModelCSimInterface(M)
     sl = M.get_species_list()
     states = [{s: float(rng.randint(0, 7)) for s in SP} for _ in range(3)]
